@@ -84,6 +84,24 @@ def run(ctx):
         for k, why in PROBES.items():
             pass
 
+    with ctx.rule('R05.6', 'an error is swallowed only by the tabled arm: EOF after CloseOk in state ClientClosed', floor=1) as r:
+        seen = io_set(ctx)
+        SW = []
+        for p in sorted(seen):
+            fn = ctx.fns[p]
+            if fn['dk'] == 'Closure' or 'hir' not in fn:
+                continue
+            for nd in H.walk(fn['hir']):
+                if nd.get('k') == 'Match' and nd.get('src') == 'Normal' and ERR_T.match(nd['scrut'].get('ty', '') or ''):
+                    for a in nd['arms']:
+                        pt = H.pat_term(a['pat'], True)
+                        body = H.term(a['body'])
+                        if pt.startswith('Err(') and body in ('{}', '()', 'Ok(())', '{Ok(())}'):
+                            SW.append((p, pt, H.term(a['guard']) if a.get('guard') else None))
+        want = [('io_loop::IoLoop::handle_steady_event', 'Err(errors::Error::UnexpectedSocketClose)', 'match state {io_loop::connection_state::ConnectionState::ClientClosed => true; _ => false}')]
+        r.eq('swallowing-arms', SW, want, ctx.site('io_loop::IoLoop::handle_steady_event'),
+             why='an EOF before CloseOk (or any other error) that is swallowed leaves the I/O thread polling a dead socket: close() and every caller hang')
+
     with ctx.rule('R05.2', 'no masking: an error is replaced by another only for the tabled cause', floor=2) as r:
         from rules import c16
         sub = type(ctx)(ctx.facts, ctx.info, ctx.prop, ctx.tier, ctx.config)
@@ -167,7 +185,8 @@ def run(ctx):
                     for i in rr.insts:
                         if any(pk in i.key for pk in pick):
                             r.insts.append(type(i)(r.rid, r._key(i.key.replace(':', '/', 1)), i.ok, i.site, i.built, i.expected, i.why))
-        # handler errors propagate out of the read loop and out of the event loop (R20.3 / R06.2)
+        A.include(ctx, r, 'c17', 'R17.2', pick=('own-timer', 'only-caller', 'rx:on-bytes', 'tx:on-every-ok-write'))
+        A.include(ctx, r, 'c17', 'R17.1', pick=('rx-tx-intervals', 'max-missed'))
 
     with ctx.rule('R05.5', 'close joins the I/O thread and reports its error in preference to the close call\'s own result', floor=5) as r:
         fnp = 'connection::Connection::close_impl'
